@@ -46,4 +46,16 @@ theorem convolve5_parity (m n : ℕ) (f : ℕ → ℕ → Rat) (k : List (List R
   have e2 : (C + 2 - b) % 2 = (C + b) % 2 := by omega
   simp only [parityImg, e1, e2]
 
+/-- the filtered image two samples (or more) inside the border, without the `reflect` rule: sample `(R+2, C+2)` of an
+`m × n` image with `R + 4 < m`, `C + 4 < n` -/
+theorem convolve5_interior (m n : ℕ) (img : ℕ → ℕ → Rat) (k : List (List Rat)) (div : Rat) (R C : ℕ)
+    (hRm : R + 4 < m) (hCn : C + 4 < n) :
+    convolve5 m n img k div (R + 2) (C + 2) =
+      Num.sumTo 5 fun a => Num.sumTo 5 fun b => kernelAt k a b / div * img (R + (4 - a)) (C + (4 - b)) := by
+  unfold convolve5
+  refine sumTo_congr 5 _ _ fun a ha => sumTo_congr 5 _ _ fun b hb => ?_
+  have e1 : reflectIdx m (((R + 2 : ℕ) : ℤ) + 2 - a) = R + (4 - a) := by unfold reflectIdx; split_ifs <;> omega
+  have e2 : reflectIdx n (((C + 2 : ℕ) : ℤ) + 2 - b) = C + (4 - b) := by unfold reflectIdx; split_ifs <;> omega
+  rw [e1, e2]
+
 end C16L
